@@ -5,11 +5,12 @@ SPECIFICATION Spec
 CONSTANTS
   MaxHoles = 2
   Names = {"a", "b"}
-  DepthLens = {1, 2}
+  DepthLens = {2}
   Version = 21
   Deviations = {"RenameKeepsLabel", "WsRemoveKeepsChild", "HoleRemovalKeepsObjectRows", "HoleRemovalKeepsGroupChild", "StalePgIdCache", "EmptyTableRaises", "TableByLabel"}
   MaxLevel = 4
   Acts = {"AddHole", "AddDepthData", "AddIntervalData", "SetValues", "RemoveDataViaParent", "AddValuesToTable", "Reopen"}
+  TrackSession = FALSE
   Kind = "text"
 VIEW vw
 INVARIANT ExportState
